@@ -155,7 +155,8 @@ def check(r):
     for what, rep in fails[:5]:
         r.violation(what, rep)
     if r.tier == 'thorough':
-        r.hygiene()
+        r.hygiene('Props/C16.v')
+        r.coqchk('Props/C16.v')
 
 
 def falsify(r):
